@@ -207,8 +207,17 @@ def corpus(fam, quick):
                 out.append(('leaf %s=%r' % (k, h), {}, body))
         for name, b in mutations_xml(fam.wrap(xml_req(VAL)).encode(), 7):
             out.append((name, {}, b))
+        # nodes that are not elements where elements are expected: an (unresolved) entity reference among the members of
+        # the message and of a nested object
+        dt = '<!DOCTYPE x [<!ENTITY a "b">]>'
+        for label, inner in [('entity_child_of_message', '<tns:f xmlns:tns="tns">&a;<tns:n>5</tns:n></tns:f>'),
+                             ('entity_child_of_object', '<tns:f xmlns:tns="tns"><tns:c>&a;<tns:i>5</tns:i></tns:c><tns:n>5</tns:n></tns:f>'),
+                             ('entity_in_array', '<tns:f xmlns:tns="tns"><tns:n>5</tns:n><tns:cs>&a;<tns:C><tns:i>1</tns:i></tns:C></tns:cs></tns:f>')]:
+            out.append((label, {}, (dt + fam.wrap(inner)).encode()))
         if fam.name.startswith('soap'):
             ns = E11 if fam.name == 'soap11' else E12
+            out.append(('entity_first_in_body', {}, (dt + '<e:Envelope xmlns:e="%s" xmlns:tns="tns"><e:Body>&a;<tns:f><tns:n>5</tns:n></tns:f></e:Body></e:Envelope>' % ns).encode()))
+            out.append(('entity_in_header', {}, (dt + '<e:Envelope xmlns:e="%s" xmlns:tns="tns"><e:Header>&a;</e:Header><e:Body><tns:f><tns:n>5</tns:n></tns:f></e:Body></e:Envelope>' % ns).encode()))
             for label, b in [('emptybody', '<e:Envelope xmlns:e="%s"><e:Body/></e:Envelope>' % ns),
                              ('nobody', '<e:Envelope xmlns:e="%s"/>' % ns),
                              ('hdronly', '<e:Envelope xmlns:e="%s"><e:Header/></e:Envelope>' % ns),
